@@ -33,6 +33,7 @@ import SharkVerif.Lemmas.McLinearMc
 import SharkVerif.Lemmas.McBias
 import SharkVerif.Lemmas.McSolveStuck
 import SharkVerif.Lemmas.McDecision
+import SharkVerif.Lemmas.McSimplexRenum
 namespace SharkVerif.C16
 open SharkVerif.Mc SharkVerif.Gen.McTables SharkVerif.McTables
 
@@ -539,6 +540,23 @@ theorem bias_delta_additive (nu : Nat → Row Rat) (P : Nat) (labels : Nat → N
 /-- non-vacuity: a history with two solves around a bias step -/
 example : biasSum [.solve 1 10, .update (fun c => if c = 0 then 1 else -1), .solve 1 10] 0 = 1 := by
   simp [biasSum]
+
+/-- the same for `BiasSolverSimplex` (CS, ATM, ADM, MMR with offset): any sequence of runs of
+`QpSolver<QpMcSimplexDecomp>::solve` and bias steps keeps tables, gradient and simplex invariants, and the linear part
+is the trainer's one shifted by the accumulated bias -/
+theorem bias_loop_consistent_simplex (f : Family) (c n : Nat) (hc : 2 ≤ c) (C : Rat) (hC : 0 ≤ C)
+    (K : Nat → Nat → Rat) (hK : ∀ i j, K i j = K j i) (labels : Nat → Nat) (hl : ∀ i < n, labels i < c)
+    (linMat : Nat → Nat → Rat) (ops : List BiasOp) :
+    SxInv (biasRunX (fun r => (f.nu c).row r) (simplexProblem f c n C K labels linMat) ops) ∧
+    LinInv (biasRunX (fun r => (f.nu c).row r) (simplexProblem f c n C K labels linMat) ops).b
+      (fun i p => linMat i p + biasDelta (fun r => (f.nu c).row r) (f.P c) labels (biasSum ops) i p) :=
+  bias_history_simplex _ ops _ linMat (simplex_invariants_initially f c n hc C hC K hK labels hl linMat)
+    (linInv_init c (f.P c) n C _ K labels linMat)
+
+/-- every run of the simplex solve loop only renumbers the dual problem (`Q`, `lin` up to a bijection of the
+variables), as for the box problem -/
+theorem simplex_run_renumbers (s : McSx Rat) (h : SxInv s) (eps : Rat) (maxIter : Nat) :
+    Renumbered s.b (solveX s eps maxIter).s.b := renum_solveX s h eps maxIter
 
 /-! ## 10. The decision-function map `Σ_p ν·α` and what the solver accuracy says about the decision function -/
 
